@@ -11,6 +11,7 @@ The implementation's callback log is checked against the same predicates on ever
 the item, so that reference is the caller's).
 -/
 import Gkv.Proofs.Refs
+import Gkv.Proofs.VersionsLeak
 open Std
 
 namespace Gkv.Props.C15
@@ -32,9 +33,41 @@ theorem reachable_positive {s : St} (h : Reach s) :
     (∀ n i, s.cached n = some i → 0 < s.count i) ∧ (∀ i, 0 < s.handed i → 0 < s.count i) :=
   ⟨Gkv.Refs.reachable_positive h, Gkv.Refs.handed_positive h⟩
 
-/-- once every node is freed (store and all snapshots closed: `C10`/`markAllUnlocked` free the whole
-    tree of the last version) and the caller returned what it was handed, every count is zero -/
-theorem closed_balanced {s : St} (h : Reach s) (hn : s.nodes = []) (hh : ∀ i, s.handed i = 0) :
+/-- PARTIAL.  The property's last clause ("once the store and all its snapshots are closed, every
+    reference gkvlite took has been released") under the hypothesis `hn` that every node object
+    was freed, and the caller returned what it was handed.  Whether closing everything frees
+    every node is a statement about the version protocol, not about this accounting model; it is
+    the three theorems below, and it is FALSE of the code in general (known finding F11,
+    `corpus/F11-orphan-leak.ops`). -/
+theorem closed_balanced_partial {s : St} (h : Reach s) (hn : s.nodes = []) (hh : ∀ i, s.handed i = 0) :
     ∀ i, s.count i = 0 := Gkv.Refs.closed_balanced h hn hh
+
+/-! ### discharging `hn`: which nodes are freed when everything is closed
+
+Model `VersionsLeak` (versions, handles, marks, free list, lazy loads under a guard `G`).
+`GLive` is what the code does: whoever loads a node under `p` holds a live version whose tree
+contains `p`.  `GStrict` adds: `p` has not been replaced yet. -/
+
+/-- with the code's loads: once every version's reference count is zero, each node that was ever
+    in a tree is on the free list OR is an orphan (never marked, not in the last tree) -/
+theorem nodes_freed_or_orphan {s : Gkv.Versions.St}
+    (hr : Gkv.VersionsLeak.ReachG Gkv.VersionsLeak.GLive s) (h0 : ∀ v, s.refs v = 0) :
+    ∀ n, (∃ v, s.tree v n) → s.freed n ∨ Gkv.VersionsLeak.orphan s n :=
+  Gkv.VersionsLeak.all_closed_freed_or_orphan (fun _ _ g => g) hr h0
+
+/-- the hypothesis of `closed_balanced_partial` HOLDS when no node is ever loaded under a node
+    that has already been replaced -/
+theorem nodes_all_freed_if_no_load_under_replaced {s : Gkv.Versions.St}
+    (hr : Gkv.VersionsLeak.ReachG Gkv.VersionsLeak.GStrict s) (h0 : ∀ v, s.refs v = 0) :
+    ∀ n, (∃ v, s.tree v n) → s.freed n :=
+  Gkv.VersionsLeak.all_closed_all_freed hr h0
+
+/-- … and FAILS without that restriction: a reachable state with every reference count zero and a
+    node that is in a tree, not freed, and never will be (the six-event history of
+    `VersionsLeak.leak_example`; on the code: `corpus/F11-orphan-leak.ops`) -/
+theorem nodes_not_all_freed :
+    ¬ (∀ s, Gkv.Versions.Reach Gkv.VersionsLeak.FT s → (∀ v, s.refs v = 0) →
+        ∀ n, (∃ v, s.tree v n) → s.freed n) :=
+  Gkv.VersionsLeak.all_closed_all_freed_false
 
 end Gkv.Props.C15
